@@ -363,11 +363,9 @@ theorem parseVModel_DirOk (v : Node) (c : Bool) (arg : Option Node) (r : List St
 
 theorem parseVSlots_DirOk (v : Node) (hv : ValOk v = true) : DirOk (parseVSlots v) = true := by
   unfold parseVSlots
-  split
-  · rename_i e he
-    have hne := containerExpr_NoJsx v e hv he
-    split <;> simp_all [DirOk]
-  · rfl
+  cases he : containerExpr v with
+  | none => rfl
+  | some e => simpa [DirOk] using containerExpr_NoJsx v e hv he
 
 set_option maxHeartbeats 2000000 in
 theorem parseDirective_DirOk (n : AttrName) (v : Node) (c : Bool) (st : St) (hv : ValOk v = true) :
